@@ -131,7 +131,7 @@ class FS:
         meta=bool(s.incompat&I_META_BG); i=g//s.dpb
         if (not meta) or i < s.first_meta_bg: return s.first_data+1+i+(1 if (s.bs==1024 and s.first_data==0) else 0)
         bg=i*s.dpb; hs=s.has_super(bg)
-        return s.gfirst(bg)+(1 if hs else 0)
+        return s.gfirst(bg)+(1 if hs else 0)+(1 if (i==0 and s.bs==1024 and s.first_data==0) else 0)   # 1k-block bigalloc: block 0 is padding, sb in block 1
     def gds(s):
         if s._gd is None:
             s._gd=[]
@@ -477,8 +477,8 @@ class Checker:
                 marked=sum(bin(x).count('1') for x in ibm[g][:fs.ipg//8])
             # reserved inodes are always marked
             exp_used=used_per_group[g]
-            if g==0:
-                exp_used += sum(1 for i in range(1,fs.first_ino) if i not in inuse)
+            # reserved inodes (below first_ino) count as used in whichever group holds them (they span groups when ipg < first_ino)
+            exp_used += sum(1 for i in range(max(1,g*fs.ipg+1),min(fs.first_ino,(g+1)*fs.ipg+1)) if i not in inuse)
             if marked!=exp_used: F('ibitmap','group %d: %d inodes marked, %d in use'%(g,marked,exp_used))
             if gd.free_inodes!=fs.ipg-exp_used: F('counts','group %d free inodes %d computed %d'%(g,gd.free_inodes,fs.ipg-exp_used))
             if gd.used_dirs!=dirs_per_group[g]: F('counts','group %d used dirs %d computed %d'%(g,gd.used_dirs,dirs_per_group[g]))
